@@ -1,5 +1,1077 @@
 //! Translator targets owned by property C17.
-#[allow(unused_imports)]
+//!
+//! `bindings` → `RotoV/Generated/Bindings.lean`: the table of every built-in
+//! registered by `runtime::basic::built_ins()` through the `library!` macro,
+//! with, for each one, the Rust operation its body forwards to (first hop,
+//! `call`/`args`/`pre`/`post`) and the operation finally reached in
+//! `value/string.rs` / `value/string_buf.rs` / std / inetnum (second hop,
+//! `std`).
+//!
+//! The `library!` token streams are walked by hand (they are not Rust items);
+//! every construct that is not understood is an `Err`.
 use super::{Gen, Target};
+use crate::find;
+use proc_macro2::{Delimiter, TokenStream, TokenTree};
+use quote::ToTokens;
+use std::path::Path;
 
-pub const TARGETS: &[Target] = &[];
+pub const TARGETS: &[Target] = &[("bindings", "Bindings", bindings as Gen)];
+
+const BASIC: &str = "src/runtime/basic.rs";
+const STRING: &str = "src/value/string.rs";
+const STRING_BUF: &str = "src/value/string_buf.rs";
+
+const STRING_TYPES: &[&str] = &["RotoString", "StringBytes", "StringChars", "StringLines"];
+const MAX_INCLUDE_DEPTH: usize = 16;
+
+// ---------------------------------------------------------------------------
+// token text
+
+fn compact_into(ts: TokenStream, out: &mut String) {
+    for tt in ts {
+        match tt {
+            TokenTree::Group(g) => {
+                let (o, c) = match g.delimiter() {
+                    Delimiter::Parenthesis => ("(", ")"),
+                    Delimiter::Brace => ("{", "}"),
+                    Delimiter::Bracket => ("[", "]"),
+                    Delimiter::None => ("", ""),
+                };
+                out.push_str(o);
+                compact_into(g.stream(), out);
+                out.push_str(c);
+            }
+            TokenTree::Ident(i) => out.push_str(&i.to_string()),
+            TokenTree::Punct(p) => out.push(p.as_char()),
+            // a literal keeps its own text (incl. spaces inside strings)
+            TokenTree::Literal(l) => out.push_str(&l.to_string()),
+        }
+    }
+}
+
+/// Token text with all inter-token spaces removed.
+fn compact(ts: TokenStream) -> String {
+    let mut s = String::new();
+    compact_into(ts, &mut s);
+    s
+}
+
+fn txt<T: ToTokens>(t: &T) -> String {
+    compact(t.to_token_stream())
+}
+
+fn is_punct(t: &TokenTree, c: char) -> bool {
+    matches!(t, TokenTree::Punct(p) if p.as_char() == c)
+}
+
+fn describe(t: &TokenTree) -> String {
+    let s = t.to_string();
+    let mut short: String = s.chars().take(60).collect();
+    if short.len() < s.len() {
+        short.push('…');
+    }
+    short
+}
+
+// ---------------------------------------------------------------------------
+// walking `library! { … }`
+
+struct TypeDecl {
+    script: String,
+    rust: String,
+    attr: String,
+}
+
+struct Walk<'a> {
+    file: &'a syn::File,
+    types: Vec<TypeDecl>,
+    impls: Vec<syn::ItemImpl>,
+}
+
+fn attr_name(a: &syn::Attribute) -> String {
+    txt(a.path())
+}
+
+/// The single `library! { … }` invocation that makes up the body of `f`.
+fn library_of_fn(f: &syn::ItemFn) -> Result<TokenStream, String> {
+    let name = &f.sig.ident;
+    if f.block.stmts.len() != 1 {
+        return Err(format!(
+            "fn {name}: body is not a single `library!` invocation ({} statements)",
+            f.block.stmts.len()
+        ));
+    }
+    let mac = match &f.block.stmts[0] {
+        syn::Stmt::Macro(m) if m.semi_token.is_none() => &m.mac,
+        syn::Stmt::Expr(syn::Expr::Macro(m), None) => &m.mac,
+        other => {
+            return Err(format!(
+                "fn {name}: body is not a `library!` invocation: {}",
+                txt(other)
+            ))
+        }
+    };
+    if !mac.path.is_ident("library") {
+        return Err(format!(
+            "fn {name}: body invokes `{}!`, expected `library!`",
+            txt(&mac.path)
+        ));
+    }
+    Ok(mac.tokens.clone())
+}
+
+fn substitute(ts: TokenStream, var: &str, arg: &TokenStream) -> Result<TokenStream, String> {
+    let toks: Vec<TokenTree> = ts.into_iter().collect();
+    let mut out: Vec<TokenTree> = vec![];
+    let mut i = 0;
+    while i < toks.len() {
+        match &toks[i] {
+            t if is_punct(t, '$') => match toks.get(i + 1) {
+                Some(TokenTree::Ident(id)) if id == var => {
+                    out.extend(arg.clone());
+                    i += 2;
+                }
+                other => {
+                    return Err(format!(
+                        "macro_rules body: `$` followed by {:?}, only `${var}` is bound",
+                        other.map(describe)
+                    ))
+                }
+            },
+            TokenTree::Group(g) => {
+                let inner = substitute(g.stream(), var, arg)?;
+                let mut ng = proc_macro2::Group::new(g.delimiter(), inner);
+                ng.set_span(g.span());
+                out.push(TokenTree::Group(ng));
+                i += 1;
+            }
+            t => {
+                out.push(t.clone());
+                i += 1;
+            }
+        }
+    }
+    Ok(out.into_iter().collect())
+}
+
+impl<'a> Walk<'a> {
+    fn top_fn(&self, name: &str) -> Result<&'a syn::ItemFn, String> {
+        let hits: Vec<&syn::ItemFn> = self
+            .file
+            .items
+            .iter()
+            .filter_map(|i| match i {
+                syn::Item::Fn(f) if f.sig.ident == name => Some(f),
+                _ => None,
+            })
+            .collect();
+        match hits.len() {
+            1 => Ok(hits[0]),
+            n => Err(format!("{BASIC}: {n} definitions of fn {name}")),
+        }
+    }
+
+    fn top_macro_rules(&self, name: &str) -> Result<&'a syn::ItemMacro, String> {
+        let hits: Vec<&syn::ItemMacro> = self
+            .file
+            .items
+            .iter()
+            .filter_map(|i| match i {
+                syn::Item::Macro(m)
+                    if m.mac.path.is_ident("macro_rules")
+                        && m.ident.as_ref().map(|x| x == name).unwrap_or(false) =>
+                {
+                    Some(m)
+                }
+                _ => None,
+            })
+            .collect();
+        match hits.len() {
+            1 => Ok(hits[0]),
+            n => Err(format!("{BASIC}: {n} definitions of macro_rules! {name}")),
+        }
+    }
+
+    /// `name!(ARG)`: expand the single rule of `macro_rules! name` and
+    /// return the token stream inside the `library! { … }` it produces.
+    fn expand_macro(&self, name: &str, arg: TokenStream) -> Result<TokenStream, String> {
+        let m = self.top_macro_rules(name)?;
+        let toks: Vec<TokenTree> = m.mac.tokens.clone().into_iter().collect();
+        let tail_ok = match toks.len() {
+            4 => true,
+            5 => is_punct(&toks[4], ';'),
+            _ => false,
+        };
+        let (matcher, rhs) = match toks.get(..4) {
+            Some([TokenTree::Group(l), eq, gt, TokenTree::Group(r)])
+                if tail_ok && is_punct(eq, '=') && is_punct(gt, '>') =>
+            {
+                (l, r)
+            }
+            _ => {
+                return Err(format!(
+                    "macro_rules! {name}: not of the single-rule form `(…) => {{…}}`"
+                ))
+            }
+        };
+        let mt: Vec<TokenTree> = matcher.stream().into_iter().collect();
+        let var = match mt.as_slice() {
+            [d, TokenTree::Ident(v), c, TokenTree::Ident(_frag)]
+                if is_punct(d, '$') && is_punct(c, ':') =>
+            {
+                v.to_string()
+            }
+            _ => {
+                return Err(format!(
+                    "macro_rules! {name}: matcher `{}` is not `$x:frag`",
+                    compact(matcher.stream())
+                ))
+            }
+        };
+        if arg.is_empty() {
+            return Err(format!("{name}!(): empty argument"));
+        }
+        let body = substitute(rhs.stream(), &var, &arg)?;
+        let bt: Vec<TokenTree> = body.into_iter().collect();
+        match bt.as_slice() {
+            [TokenTree::Ident(l), bang, TokenTree::Group(g)]
+                if l == "library" && is_punct(bang, '!') =>
+            {
+                Ok(g.stream())
+            }
+            _ => Err(format!(
+                "macro_rules! {name}: expansion is not a single `library! {{…}}`"
+            )),
+        }
+    }
+
+    fn include(&mut self, arg: TokenStream, depth: usize) -> Result<(), String> {
+        let t: Vec<TokenTree> = arg.clone().into_iter().collect();
+        let inner = match t.as_slice() {
+            [TokenTree::Ident(name), bang, TokenTree::Group(g)] if is_punct(bang, '!') => {
+                self.expand_macro(&name.to_string(), g.stream())?
+            }
+            [TokenTree::Ident(name), TokenTree::Group(g)]
+                if g.delimiter() == Delimiter::Parenthesis && g.stream().is_empty() =>
+            {
+                let f = self.top_fn(&name.to_string())?;
+                if !f.sig.inputs.is_empty() {
+                    return Err(format!("include!({name}()): fn {name} takes parameters"));
+                }
+                library_of_fn(f)?
+            }
+            _ => {
+                return Err(format!(
+                    "include!({}): argument is neither `name!(T)` nor `name()`",
+                    compact(arg)
+                ))
+            }
+        };
+        self.walk(inner, depth + 1)
+    }
+
+    fn walk(&mut self, ts: TokenStream, depth: usize) -> Result<(), String> {
+        if depth > MAX_INCLUDE_DEPTH {
+            return Err("library!: include! nesting too deep (cycle?)".into());
+        }
+        let toks: Vec<TokenTree> = ts.into_iter().collect();
+        let mut attrs: Vec<TokenTree> = vec![];
+        let mut i = 0;
+        let semi_from = |from: usize, what: &str| -> Result<usize, String> {
+            (from..toks.len())
+                .find(|&j| is_punct(&toks[j], ';'))
+                .ok_or_else(|| format!("library!: `{what}` item without terminating `;`"))
+        };
+        while i < toks.len() {
+            match &toks[i] {
+                t if is_punct(t, '#') => match toks.get(i + 1) {
+                    Some(TokenTree::Group(g)) if g.delimiter() == Delimiter::Bracket => {
+                        attrs.push(toks[i].clone());
+                        attrs.push(toks[i + 1].clone());
+                        i += 2;
+                    }
+                    other => {
+                        return Err(format!(
+                            "library!: `#` followed by {:?}",
+                            other.map(describe)
+                        ))
+                    }
+                },
+                TokenTree::Ident(id) => {
+                    let kw = id.to_string();
+                    match kw.as_str() {
+                        "use" => {
+                            if !attrs.is_empty() {
+                                return Err("library!: attributes on a `use` item".into());
+                            }
+                            i = semi_from(i, "use")? + 1;
+                        }
+                        "type" => {
+                            let j = semi_from(i, "type")?;
+                            let item: TokenStream = attrs
+                                .drain(..)
+                                .chain(toks[i..=j].iter().cloned())
+                                .collect();
+                            let text = compact(item.clone());
+                            let it: syn::ItemType = syn::parse2(item)
+                                .map_err(|e| format!("library!: cannot parse `{text}`: {e}"))?;
+                            self.type_decl(&it)?;
+                            i = j + 1;
+                        }
+                        "impl" => {
+                            let j = (i..toks.len())
+                                .find(|&j| {
+                                    matches!(&toks[j], TokenTree::Group(g) if g.delimiter() == Delimiter::Brace)
+                                })
+                                .ok_or("library!: `impl` without a body")?;
+                            let item: TokenStream = attrs
+                                .drain(..)
+                                .chain(toks[i..=j].iter().cloned())
+                                .collect();
+                            let head = compact(toks[i..j].iter().cloned().collect());
+                            let it: syn::ItemImpl = syn::parse2(item)
+                                .map_err(|e| format!("library!: cannot parse `{head} {{…}}`: {e}"))?;
+                            if it.trait_.is_some()
+                                || !it.generics.params.is_empty()
+                                || it.generics.where_clause.is_some()
+                                || it.unsafety.is_some()
+                                || it.defaultness.is_some()
+                            {
+                                return Err(format!(
+                                    "library!: `{head}` is not a plain `impl TYPE {{…}}`"
+                                ));
+                            }
+                            if let Some(a) = it.attrs.iter().find(|a| attr_name(a) != "doc") {
+                                return Err(format!(
+                                    "library!: unsupported attribute `{}` on `{head}`",
+                                    txt(a)
+                                ));
+                            }
+                            self.impls.push(it);
+                            i = j + 1;
+                        }
+                        "include" => {
+                            if !attrs.is_empty() {
+                                return Err("library!: attributes on `include!`".into());
+                            }
+                            match (toks.get(i + 1), toks.get(i + 2), toks.get(i + 3)) {
+                                (Some(b), Some(TokenTree::Group(g)), Some(s))
+                                    if is_punct(b, '!')
+                                        && g.delimiter() == Delimiter::Parenthesis
+                                        && is_punct(s, ';') =>
+                                {
+                                    self.include(g.stream(), depth)?;
+                                    i += 4;
+                                }
+                                _ => {
+                                    return Err(
+                                        "library!: malformed `include!(…);` item".to_string()
+                                    )
+                                }
+                            }
+                        }
+                        other => {
+                            return Err(format!(
+                                "library!: unsupported item kind `{other}` at item level"
+                            ))
+                        }
+                    }
+                }
+                other => {
+                    return Err(format!(
+                        "library!: unexpected token `{}` at item level",
+                        describe(other)
+                    ))
+                }
+            }
+        }
+        if !attrs.is_empty() {
+            return Err("library!: dangling attributes at end of block".into());
+        }
+        Ok(())
+    }
+
+    fn type_decl(&mut self, it: &syn::ItemType) -> Result<(), String> {
+        let script = it.ident.to_string();
+        if it.generics.where_clause.is_some() {
+            return Err(format!("type {script}: where clause"));
+        }
+        let non_doc: Vec<String> = it
+            .attrs
+            .iter()
+            .map(attr_name)
+            .filter(|n| n != "doc")
+            .collect();
+        let attr = match non_doc.first() {
+            Some(a) => a.clone(),
+            None => return Err(format!("type {script}: no #[value]/#[clone]/#[copy] attribute")),
+        };
+        if !["value", "clone", "copy"].contains(&attr.as_str()) {
+            return Err(format!("type {script}: unknown attribute #[{attr}]"));
+        }
+        if non_doc.len() != 1 {
+            return Err(format!("type {script}: several non-doc attributes {non_doc:?}"));
+        }
+        if self.types.iter().any(|t| t.script == script) {
+            return Err(format!("type {script}: declared twice"));
+        }
+        self.types.push(TypeDecl {
+            script,
+            rust: txt(&*it.ty),
+            attr,
+        });
+        Ok(())
+    }
+}
+
+// ---------------------------------------------------------------------------
+// bindings
+
+struct Binding {
+    ty: String,
+    script: String,
+    name: String,
+    kind: &'static str,
+    params: Vec<(String, String)>,
+    ret: String,
+    sig: String,
+    doc: String,
+    call: String,
+    args: Vec<String>,
+    pre: Vec<String>,
+    post: Vec<String>,
+    std: String,
+}
+
+fn lit_str(e: &syn::Expr) -> Option<String> {
+    match e {
+        syn::Expr::Lit(syn::ExprLit {
+            lit: syn::Lit::Str(s),
+            ..
+        }) => Some(s.value()),
+        _ => None,
+    }
+}
+
+/// (`sig`, first doc paragraph) from the attributes of a fn / const.
+fn item_attrs(attrs: &[syn::Attribute], what: &str) -> Result<(String, String), String> {
+    let mut sig: Option<String> = None;
+    let mut docs: Vec<String> = vec![];
+    for a in attrs {
+        match attr_name(a).as_str() {
+            "doc" => match &a.meta {
+                syn::Meta::NameValue(nv) => match lit_str(&nv.value) {
+                    Some(s) => docs.push(s),
+                    None => return Err(format!("{what}: non-literal doc attribute `{}`", txt(a))),
+                },
+                _ => return Err(format!("{what}: unsupported doc attribute `{}`", txt(a))),
+            },
+            "sig" => match &a.meta {
+                syn::Meta::NameValue(nv) => match lit_str(&nv.value) {
+                    Some(s) if sig.is_none() => sig = Some(s),
+                    Some(_) => return Err(format!("{what}: two #[sig] attributes")),
+                    None => return Err(format!("{what}: non-literal #[sig]")),
+                },
+                _ => return Err(format!("{what}: malformed #[sig]")),
+            },
+            "vtables" => {}
+            other => return Err(format!("{what}: unsupported attribute #[{other}]")),
+        }
+    }
+    let mut para: Vec<String> = vec![];
+    for d in &docs {
+        let t = d.trim();
+        if t.is_empty() {
+            break;
+        }
+        para.push(t.to_string());
+    }
+    Ok((sig.unwrap_or_default(), para.join(" ")))
+}
+
+fn path_is(e: &syn::Expr, name: &str) -> bool {
+    matches!(e, syn::Expr::Path(p) if p.qself.is_none() && p.attrs.is_empty() && p.path.is_ident(name))
+}
+
+/// Peel result-conversion layers off `e`, outermost first.
+fn peel<'e>(mut e: &'e syn::Expr, post: &mut Vec<String>) -> &'e syn::Expr {
+    loop {
+        match e {
+            syn::Expr::Group(g) => e = &g.expr,
+            syn::Expr::MethodCall(m)
+                if m.turbofish.is_none() && m.args.is_empty() && m.method == "into" =>
+            {
+                post.push("into".into());
+                e = &m.receiver;
+            }
+            syn::Expr::MethodCall(m)
+                if m.turbofish.is_none() && m.args.is_empty() && m.method == "unwrap" =>
+            {
+                post.push("unwrap".into());
+                e = &m.receiver;
+            }
+            syn::Expr::MethodCall(m)
+                if m.turbofish.is_none()
+                    && m.method == "map"
+                    && m.args.len() == 1
+                    && matches!(m.args[0], syn::Expr::Closure(_)) =>
+            {
+                post.push(format!("map({})", txt(&m.args[0])));
+                e = &m.receiver;
+            }
+            syn::Expr::Cast(c) => {
+                post.push(format!("as {}", txt(&*c.ty)));
+                e = &c.expr;
+            }
+            syn::Expr::Call(c) if path_is(&c.func, "Val") && c.args.len() == 1 => {
+                post.push("Val".into());
+                e = &c.args[0];
+            }
+            syn::Expr::Unsafe(u) if u.block.stmts.len() == 1 => match &u.block.stmts[0] {
+                syn::Stmt::Expr(x, None) => {
+                    post.push("unsafe".into());
+                    e = x;
+                }
+                _ => return e,
+            },
+            syn::Expr::Try(t) => {
+                post.push("?".into());
+                e = &t.expr;
+            }
+            _ => return e,
+        }
+    }
+}
+
+fn macro_call(mac: &syn::Macro) -> (String, Vec<String>) {
+    // literal tokens keep their source text; a single format-string argument
+    // (the only case in the tree) is therefore reproduced exactly.
+    (format!("{}!", txt(&mac.path)), vec![mac.tokens.to_string()])
+}
+
+fn core(e: &syn::Expr, what: &str) -> Result<(String, Vec<String>), String> {
+    match e {
+        syn::Expr::MethodCall(m) => {
+            if m.turbofish.is_some() {
+                return Err(format!("{what}: method call with turbofish `{}`", txt(e)));
+            }
+            Ok((
+                format!("{}.{}", txt(&*m.receiver), m.method),
+                m.args.iter().map(|a| txt(a)).collect(),
+            ))
+        }
+        syn::Expr::Call(c) => match &*c.func {
+            syn::Expr::Path(p) if p.qself.is_none() => {
+                Ok((txt(&p.path), c.args.iter().map(|a| txt(a)).collect()))
+            }
+            _ => Err(format!("{what}: call of a non-path `{}`", txt(e))),
+        },
+        syn::Expr::Binary(b) => Ok((
+            format!("op{}", txt(&b.op)),
+            vec![txt(&*b.left), txt(&*b.right)],
+        )),
+        syn::Expr::Path(p) if p.qself.is_none() => Ok((txt(&p.path), vec![])),
+        syn::Expr::Macro(m) => Ok(macro_call(&m.mac)),
+        _ => Err(format!("{what}: unsupported result expression `{}`", txt(e))),
+    }
+}
+
+struct Body {
+    call: String,
+    args: Vec<String>,
+    pre: Vec<String>,
+    post: Vec<String>,
+}
+
+fn analyse_block(b: &syn::Block, what: &str) -> Result<Body, String> {
+    let Some((last, init)) = b.stmts.split_last() else {
+        return Err(format!("{what}: empty body"));
+    };
+    let mut pre = vec![];
+    for s in init {
+        match s {
+            syn::Stmt::Local(l) => {
+                let Some(i) = &l.init else {
+                    return Err(format!("{what}: `let` without initializer"));
+                };
+                if i.diverge.is_some() {
+                    return Err(format!("{what}: let-else"));
+                }
+                if !l.attrs.is_empty() {
+                    return Err(format!("{what}: attribute on `let`"));
+                }
+                pre.push(format!("{}={}", txt(&l.pat), txt(&*i.expr)));
+            }
+            other => {
+                return Err(format!(
+                    "{what}: non-`let` statement before the result: `{}`",
+                    txt(other)
+                ))
+            }
+        }
+    }
+    let mut post = vec![];
+    let (call, args) = match last {
+        syn::Stmt::Expr(e, _) => {
+            let c = peel(e, &mut post);
+            core(c, what)?
+        }
+        syn::Stmt::Macro(m) => macro_call(&m.mac),
+        other => {
+            return Err(format!(
+                "{what}: last statement is not an expression: `{}`",
+                txt(other)
+            ))
+        }
+    };
+    Ok(Body {
+        call,
+        args,
+        pre,
+        post,
+    })
+}
+
+/// `fn m` of the inherent `impl ty` at the top level of `file`.
+fn inherent_fn<'f>(
+    file: &'f syn::File,
+    rel: &str,
+    ty: &str,
+    m: &str,
+) -> Result<Option<&'f syn::ImplItemFn>, String> {
+    let mut hits = vec![];
+    for it in &file.items {
+        if let syn::Item::Impl(im) = it {
+            if im.trait_.is_none() && txt(&*im.self_ty) == ty {
+                for x in &im.items {
+                    if let syn::ImplItem::Fn(f) = x {
+                        if f.sig.ident == m {
+                            hits.push(f);
+                        }
+                    }
+                }
+            }
+        }
+    }
+    match hits.len() {
+        0 => Ok(None),
+        1 => Ok(Some(hits[0])),
+        n => Err(format!("{rel}: {n} definitions of {ty}::{m}")),
+    }
+}
+
+/// Second hop inside `value/string.rs`.
+fn string_std(f: &syn::ImplItemFn, what: &str) -> Result<String, String> {
+    if f.block.stmts.is_empty() {
+        return Err(format!("{what}: empty body in {STRING}"));
+    }
+    if f.block.stmts.len() != 1 {
+        return Ok("<algorithm>".into());
+    }
+    match &f.block.stmts[0] {
+        syn::Stmt::Expr(
+            syn::Expr::ForLoop(_) | syn::Expr::While(_) | syn::Expr::Loop(_),
+            _,
+        ) => Ok("<algorithm>".into()),
+        syn::Stmt::Expr(e, _) => {
+            let t = txt(e);
+            const RECV: &str = "self.0.0";
+            if let Some(rest) = t.strip_prefix(RECV) {
+                let boundary = rest
+                    .chars()
+                    .next()
+                    .map(|c| !(c.is_alphanumeric() || c == '_'))
+                    .unwrap_or(true);
+                if boundary {
+                    return Ok(format!("str{rest}"));
+                }
+            }
+            Ok(t)
+        }
+        syn::Stmt::Local(_) => Ok("<algorithm>".into()),
+        other => Err(format!(
+            "{what}: unsupported body statement in {STRING}: `{}`",
+            txt(other)
+        )),
+    }
+}
+
+/// Second hop inside `value/string_buf.rs`: the statements joined by `;`.
+fn string_buf_std(f: &syn::ImplItemFn, what: &str) -> Result<String, String> {
+    if f.block.stmts.is_empty() {
+        return Err(format!("{what}: empty body in {STRING_BUF}"));
+    }
+    let mut parts = vec![];
+    for s in &f.block.stmts {
+        let t = match s {
+            syn::Stmt::Expr(e, _) => txt(e),
+            syn::Stmt::Local(_) | syn::Stmt::Macro(_) => {
+                let t = txt(s);
+                t.strip_suffix(';').map(|x| x.to_string()).unwrap_or(t)
+            }
+            syn::Stmt::Item(_) => {
+                return Err(format!("{what}: nested item in {STRING_BUF} body"))
+            }
+        };
+        parts.push(t);
+    }
+    Ok(parts.join(";"))
+}
+
+struct Sources {
+    string: syn::File,
+    string_buf: syn::File,
+}
+
+fn second_hop(src: &Sources, ty: &str, call: &str, what: &str) -> Result<String, String> {
+    let self_m = call
+        .strip_prefix("self.")
+        .filter(|m| !m.is_empty() && m.chars().all(|c| c.is_alphanumeric() || c == '_'));
+    if STRING_TYPES.contains(&ty) {
+        let own_static = call.strip_prefix(&format!("{ty}::")).filter(|m| !m.contains("::"));
+        let own_static = own_static.or_else(|| call.strip_prefix("Self::").filter(|m| !m.contains("::")));
+        if let Some(m) = self_m.or(own_static) {
+            return match inherent_fn(&src.string, STRING, ty, m)? {
+                Some(f) => string_std(f, what),
+                None => Ok(format!("trait:{m}")),
+            };
+        }
+    }
+    if ty == "Val<StringBuf>" {
+        let m = call
+            .strip_prefix("self.0.")
+            .or_else(|| call.strip_prefix("StringBuf::"))
+            .filter(|m| !m.is_empty() && m.chars().all(|c| c.is_alphanumeric() || c == '_'));
+        if let Some(m) = m {
+            return match inherent_fn(&src.string_buf, STRING_BUF, "StringBuf", m)? {
+                Some(f) => string_buf_std(f, what),
+                None => Ok(format!("trait:{m}")),
+            };
+        }
+    }
+    // generic rules
+    if let Some(m) = self_m {
+        return Ok(format!("{ty}::{m}"));
+    }
+    if call == "self" {
+        return Ok("identity".into());
+    }
+    if call == "op==" {
+        return Ok(format!("{ty}::eq"));
+    }
+    if call == "format!" {
+        return Ok("format!".into());
+    }
+    if call.contains("::") && !call.contains('.') {
+        let segs: Vec<&str> = call
+            .split("::")
+            .map(|s| if s == "Self" { ty } else { s })
+            .collect();
+        return Ok(segs.join("::"));
+    }
+    Ok(call.to_string())
+}
+
+fn bindings_of_impl(
+    im: &syn::ItemImpl,
+    script: &str,
+    src: &Sources,
+    out: &mut Vec<Binding>,
+) -> Result<(), String> {
+    let ty = txt(&*im.self_ty);
+    for item in &im.items {
+        match item {
+            syn::ImplItem::Fn(f) => {
+                let name = f.sig.ident.to_string();
+                let what = format!("impl {ty} / fn {name}");
+                let s = &f.sig;
+                if s.constness.is_some()
+                    || s.asyncness.is_some()
+                    || s.unsafety.is_some()
+                    || s.abi.is_some()
+                    || !s.generics.params.is_empty()
+                    || s.generics.where_clause.is_some()
+                    || s.variadic.is_some()
+                {
+                    return Err(format!("{what}: unsupported signature `{}`", txt(s)));
+                }
+                if !matches!(f.vis, syn::Visibility::Inherited) || f.defaultness.is_some() {
+                    return Err(format!("{what}: unexpected visibility/default qualifier"));
+                }
+                let (sig, doc) = item_attrs(&f.attrs, &what)?;
+                let mut params = vec![];
+                let mut method = false;
+                for a in &s.inputs {
+                    match a {
+                        syn::FnArg::Receiver(r) => {
+                            if r.reference.is_some()
+                                || r.mutability.is_some()
+                                || r.colon_token.is_some()
+                                || !r.attrs.is_empty()
+                            {
+                                return Err(format!(
+                                    "{what}: receiver `{}` is not plain `self`",
+                                    txt(r)
+                                ));
+                            }
+                            method = true;
+                            params.push(("self".to_string(), "Self".to_string()));
+                        }
+                        syn::FnArg::Typed(t) => match &*t.pat {
+                            syn::Pat::Ident(p)
+                                if p.by_ref.is_none()
+                                    && p.mutability.is_none()
+                                    && p.subpat.is_none()
+                                    && p.attrs.is_empty()
+                                    && t.attrs.is_empty() =>
+                            {
+                                if p.ident == "self_" {
+                                    method = true;
+                                }
+                                params.push((p.ident.to_string(), txt(&*t.ty)));
+                            }
+                            _ => {
+                                return Err(format!(
+                                    "{what}: unsupported parameter `{}`",
+                                    txt(a)
+                                ))
+                            }
+                        },
+                    }
+                }
+                let ret = match &s.output {
+                    syn::ReturnType::Default => "()".to_string(),
+                    syn::ReturnType::Type(_, t) => txt(&**t),
+                };
+                let body = analyse_block(&f.block, &what)?;
+                let std = second_hop(src, &ty, &body.call, &what)?;
+                out.push(Binding {
+                    ty: ty.clone(),
+                    script: script.to_string(),
+                    name,
+                    kind: if method { "method" } else { "static" },
+                    params,
+                    ret,
+                    sig,
+                    doc,
+                    call: body.call,
+                    args: body.args,
+                    pre: body.pre,
+                    post: body.post,
+                    std,
+                });
+            }
+            syn::ImplItem::Const(c) => {
+                let name = c.ident.to_string();
+                let what = format!("impl {ty} / const {name}");
+                if !c.generics.params.is_empty()
+                    || c.generics.where_clause.is_some()
+                    || !matches!(c.vis, syn::Visibility::Inherited)
+                    || c.defaultness.is_some()
+                {
+                    return Err(format!("{what}: unsupported const form"));
+                }
+                let (sig, doc) = item_attrs(&c.attrs, &what)?;
+                let mut post = vec![];
+                let e = peel(&c.expr, &mut post);
+                let (call, args) = core(e, &what)?;
+                out.push(Binding {
+                    ty: ty.clone(),
+                    script: script.to_string(),
+                    name,
+                    kind: "const",
+                    params: vec![],
+                    ret: txt(&c.ty),
+                    sig,
+                    doc,
+                    std: call.clone(),
+                    call,
+                    args,
+                    pre: vec![],
+                    post,
+                });
+            }
+            other => {
+                return Err(format!(
+                    "impl {ty}: unsupported impl item `{}`",
+                    describe_ts(other.to_token_stream())
+                ))
+            }
+        }
+    }
+    Ok(())
+}
+
+fn describe_ts(ts: TokenStream) -> String {
+    let s = compact(ts);
+    let mut short: String = s.chars().take(60).collect();
+    if short.len() < s.len() {
+        short.push('…');
+    }
+    short
+}
+
+// ---------------------------------------------------------------------------
+// Lean output
+
+fn lean_str(s: &str) -> String {
+    let mut o = String::with_capacity(s.len() + 2);
+    o.push('"');
+    for c in s.chars() {
+        match c {
+            '\\' => o.push_str("\\\\"),
+            '"' => o.push_str("\\\""),
+            '\n' => o.push_str("\\n"),
+            c => o.push(c),
+        }
+    }
+    o.push('"');
+    o
+}
+
+fn lean_list(v: &[String]) -> String {
+    format!(
+        "[{}]",
+        v.iter().map(|s| lean_str(s)).collect::<Vec<_>>().join(", ")
+    )
+}
+
+fn lean_pairs(v: &[(String, String)]) -> String {
+    format!(
+        "[{}]",
+        v.iter()
+            .map(|(a, b)| format!("({}, {})", lean_str(a), lean_str(b)))
+            .collect::<Vec<_>>()
+            .join(", ")
+    )
+}
+
+const PRELUDE: &str = "\
+namespace RotoV.Gen.Bindings
+
+structure Binding where
+  ty : String
+  script : String
+  name : String
+  kind : String
+  params : List (String × String)
+  ret : String
+  sig : String
+  doc : String
+  call : String
+  args : List String
+  pre : List String
+  post : List String
+  std : String
+deriving DecidableEq, Repr
+
+structure TypeDecl where
+  script : String
+  rust : String
+  attr : String
+deriving DecidableEq, Repr
+
+";
+
+fn bindings(repo: &Path) -> Result<String, String> {
+    let basic = find::parse(repo, BASIC)?;
+    let src = Sources {
+        string: find::parse(repo, STRING)?,
+        string_buf: find::parse(repo, STRING_BUF)?,
+    };
+
+    let mut w = Walk {
+        file: &basic,
+        types: vec![],
+        impls: vec![],
+    };
+    let root = library_of_fn(w.top_fn("built_ins")?)?;
+    w.walk(root, 0)?;
+
+    let mut table: Vec<Binding> = vec![];
+    for im in &w.impls {
+        let ty = txt(&*im.self_ty);
+        let decls: Vec<&TypeDecl> = w.types.iter().filter(|t| t.rust == ty).collect();
+        let script = match decls.len() {
+            1 => decls[0].script.clone(),
+            0 => return Err(format!("impl {ty}: no `type X = {ty};` declaration")),
+            n => return Err(format!("impl {ty}: {n} type declarations map to it")),
+        };
+        bindings_of_impl(im, &script, &src, &mut table)?;
+    }
+    if table.is_empty() {
+        return Err("no bindings found".into());
+    }
+    for (i, b) in table.iter().enumerate() {
+        if table[..i]
+            .iter()
+            .any(|a| a.script == b.script && a.name == b.name)
+        {
+            return Err(format!("{}.{} registered twice", b.script, b.name));
+        }
+    }
+
+    let mut o = String::new();
+    o.push_str(&format!(
+        "/- GENERATED by /verif/extract from {BASIC}, {STRING}, {STRING_BUF} — do not edit. -/\n"
+    ));
+    o.push_str(PRELUDE);
+    o.push_str("def types : List TypeDecl := [\n");
+    let n = w.types.len();
+    for (i, t) in w.types.iter().enumerate() {
+        o.push_str(&format!(
+            "  ⟨{}, {}, {}⟩{}\n",
+            lean_str(&t.script),
+            lean_str(&t.rust),
+            lean_str(&t.attr),
+            if i + 1 < n { "," } else { "" }
+        ));
+    }
+    o.push_str("]\n\n");
+    o.push_str("def table : List Binding := [\n");
+    let n = table.len();
+    for (i, b) in table.iter().enumerate() {
+        o.push_str(&format!(
+            "  {{ ty := {}, script := {}, name := {}, kind := {}, params := {}, ret := {}, sig := {}, doc := {}, call := {}, args := {}, pre := {}, post := {}, std := {} }}{}\n",
+            lean_str(&b.ty),
+            lean_str(&b.script),
+            lean_str(&b.name),
+            lean_str(b.kind),
+            lean_pairs(&b.params),
+            lean_str(&b.ret),
+            lean_str(&b.sig),
+            lean_str(&b.doc),
+            lean_str(&b.call),
+            lean_list(&b.args),
+            lean_list(&b.pre),
+            lean_list(&b.post),
+            lean_str(&b.std),
+            if i + 1 < n { "," } else { "" }
+        ));
+    }
+    o.push_str("]\n\n");
+    o.push_str("def names : List (String × String) := table.map fun b => (b.script, b.name)\n\n");
+    // bodies that are algorithms (second hop `<algorithm>`): their statements, token text
+    o.push_str("/-- the statements of the string.rs methods that are algorithms (what Model/Strings.lean transcribes) -/\n");
+    o.push_str("def algorithms : List (String × List String) := [\n");
+    let algos: Vec<&Binding> = table.iter().filter(|b| b.std == "<algorithm>").collect();
+    for (i, b) in algos.iter().enumerate() {
+        let m = b
+            .call
+            .strip_prefix("self.")
+            .or_else(|| b.call.strip_prefix(&format!("{}::", b.ty)))
+            .ok_or_else(|| format!("{}.{}: cannot locate the algorithm behind call `{}`", b.script, b.name, b.call))?;
+        let f = inherent_fn(&src.string, STRING, &b.ty, m)?
+            .ok_or_else(|| format!("{}.{}: {}::{m} not found in {STRING}", b.script, b.name, b.ty))?;
+        let stmts: Vec<String> = f.block.stmts.iter().map(|s| txt(s)).collect();
+        o.push_str(&format!(
+            "  ({}, {}){}\n",
+            lean_str(&format!("{}::{m}", b.ty)),
+            lean_list(&stmts),
+            if i + 1 < algos.len() { "," } else { "" }
+        ));
+    }
+    o.push_str("]\n");
+    o.push_str("\nend RotoV.Gen.Bindings\n");
+    Ok(o)
+}
